@@ -391,6 +391,9 @@ pub fn check_main(a: CheckArgs) -> i32 {
     let mut audit_mismatch = 0u64;
     let mut minimise_execs = 0u64;
     let mut violations_total = 0u64;
+    let mut dims: BTreeMap<String, u64> = BTreeMap::new();
+    let mut skipped_after_deaths = 0u64;
+    let mut deaths = 0u64;
     let mut samples: Vec<Value> = vec![];
     let mut fp_all: BTreeSet<u64> = BTreeSet::new();
     let mut fp_nontrivial: BTreeSet<u64> = BTreeSet::new();
@@ -412,6 +415,11 @@ pub fn check_main(a: CheckArgs) -> i32 {
         audit_mismatch += d["audit_mismatch"].as_u64().unwrap_or(0);
         minimise_execs += d["minimise_execs"].as_u64().unwrap_or(0);
         violations_total += d["violations_total"].as_u64().unwrap_or(0);
+        skipped_after_deaths += d["skipped_after_deaths"].as_u64().unwrap_or(0);
+        deaths += d["deaths"].as_u64().unwrap_or(0);
+        for (k, v) in d["dims"].as_object().cloned().unwrap_or_default() {
+            *dims.entry(k).or_default() += v.as_u64().unwrap_or(0);
+        }
         for s in d["samples"].as_array().cloned().unwrap_or_default() {
             if samples.len() < 4 {
                 samples.push(s);
@@ -483,6 +491,9 @@ pub fn check_main(a: CheckArgs) -> i32 {
                 "rule": "An evaluation is one simulated execution: a list of whole-file compilations (parse > resolver > VueJsxTransformVisitor > codegen) run on 1-4 worker OS threads that are released one at a time by a seeded scheduler, with faults and environment noise, every non-faulted task compared byte-for-byte (code, binding signature, diagnostics) with the same task run alone; plus one evaluation per solo run of a workload task (each task is run alone in 3 different child processes with different hash keys, each time in its own forked process). Executions come from four strata: solo table x processes; systematic single-crash sweep [t crashed at step k; t; u]; systematic single-preemption sweep (A parked at step k, B runs to completion, A resumes); seeded random/PCT search. Two executions are the same interleaving when they have the same task list and the same sequence of (task, task-local step, site) at which control changed hands plus the same faults fired; distinct_nontrivial counts distinct interleavings among executions with at least one switch away from a still-running task or at least one fault fired. The workload is fixed (repository fixtures + /verif/workload); the search is over schedules and faults, not programs.",
                 "samples": samples,
                 "strata_runs": runs,
+                "runs_per_host_dimension": dims,
+                "executions_that_died": deaths,
+                "runs_skipped_after_repeated_deaths": skipped_after_deaths,
                 "solo": {"modules": modules, "tasks": tasks_n, "processes_per_task": solo_tables_n, "solo_executions": solo_evals, "tasks_with_process_dependent_result": unstable.len(), "table_ms_max": solo_ms},
                 "world": world,
                 "simulated_runs": sim_runs,
@@ -499,6 +510,7 @@ pub fn check_main(a: CheckArgs) -> i32 {
                     "worker_replace": counters.get("worker_replaced"),
                     "globals_restart": counters.get("globals_restarted"),
                     "noise_marks_allocated_at_yields": counters.get("noise_marks"),
+                    "holder_blocked_on_a_lock_of_a_parked_task (baton handed on)": counters.get("blocked_handoffs"),
                     "rehash": "every worker thread and every solo thread has its own seed-derived hash keys",
                 },
                 "probes": {
@@ -507,7 +519,7 @@ pub fn check_main(a: CheckArgs) -> i32 {
                     "crash_then_same_worker_reused": counters.get("crash_then_same_worker_reused"),
                     "pure_comment_tasks_in_shared_store": counters.get("pure_comment_tasks_in_shared_store"),
                     "diagnostic_while_other_task_parked": counters.get("diag_while_other_parked"),
-                    "budget_hook_fired": counters.get("budget_fired"),
+                    "budget_hook_fired (a violation detector, 0 when T holds; fires under S05/T11/T16)": counters.get("budget_fired"),
                 },
                 "crash_point_enumeration": {"runs": runs.get("crash"), "exhaustive": a.thorough && a.strata.iter().any(|s| s == "crash"),
                     "note": "thorough: every step of every workload task; quick: first two and last occurrence of every site, option sets own/all with comments"},
@@ -521,7 +533,9 @@ pub fn check_main(a: CheckArgs) -> i32 {
             "assumptions": [
                 "totality (T) is decided on the fixed workload only, not over the input space",
                 "stack depth as a resource is not modelled; recursion through hooked functions is bounded by a step budget instead",
-                "address-dependent behaviour is not controlled (ASLR stays real)",
+                "the address space is pinned (no ASLR, every execution forked from one memory image, threads started one at a time): address-dependent behaviour replays exactly, but only the heap layouts the explored plans produce are seen",
+                "worker stacks of 2 MiB are assumed sufficient for legitimate recursion (every workload task survives 1 MiB on the unchanged tree)",
+                "each execution is limited to its CPU-time budget, 4x that + 10 s of wall-clock time and 2.5 GiB of address space; exceeding any of them is a T violation",
                 "the simulator's own determinism is checked by executing a sample of runs twice (self_audit)"
             ],
             "wall_s": wall,
